@@ -663,6 +663,34 @@ def main(argv):
                 per_clause_kept[clause] = per_clause_kept.get(clause, 0) + 1
                 failures.append({'clause': clause, 'detail': detail, 'table': t, 'ops': [list(o) for o in ops], 'seed': s})
 
+    # counting is EXACT: values that are merely close to the searched one (large codes differing by one unit, 250.0 vs 250.001,
+    # tiny values next to 0) are other values; also after remove() left gaps in the index and after scale_column
+    cases += 1
+    try:
+        import pandas as pd
+        import biogeme.database as bdb
+        from biogeme.expressions import Variable
+        zone = [100001, 100001, 100002, 100002, 100003, 100001, 250000, 250001]
+        dist = [250.0, 250.001, 0.0, 1e-9, 250.0005, 13.5, 250.0, 7.25]
+        d = bdb.Database('c13count', pd.DataFrame({'zone': zone, 'dist': dist}))
+        bad = []
+        for col, val, want in (('zone', 100001, 3), ('zone', 100002, 2), ('zone', 250000, 1), ('dist', 250.0, 2), ('dist', 0.0, 1), ('dist', 250.001, 1)):
+            got = int(d.count(col, val))
+            if got != want:
+                bad.append(f'count({col}, {val}) = {got}, the table has {want}')
+        d.remove(Variable('dist') == 13.5)
+        d.scale_column('dist', 1000.0)
+        for col, val, want in (('zone', 100001, 2), ('dist', 250000.0, 2), ('dist', 250001.0, 1)):
+            got = int(d.count(col, val))
+            if got != want:
+                bad.append(f'after remove + scale_column: count({col}, {val}) = {got}, the table has {want}')
+        for b in bad[:3]:
+            by_clause['count.value'] = by_clause.get('count.value', 0) + 1
+            failures.append({'clause': 'count.value', 'detail': b, 'table': {'labels': list(range(len(zone))), 'g': [], 'x': zone, 'y': dist}, 'ops': [], 'seed': 0})
+    except Exception as e:                      # noqa: BLE001
+        by_clause['count.value'] = by_clause.get('count.value', 0) + 1
+        failures.append({'clause': 'count.value', 'detail': f'count on close values raised {type(e).__name__}: {e}', 'table': {'labels': [], 'g': [], 'x': [], 'y': []}, 'ops': [], 'seed': 0})
+
     for ti, t in enumerate(CATALOGUE):
         L = exh_len if ti in deep else (1 if tier == 'quick' else 2)
         for ops in sequences(L):
